@@ -9,7 +9,7 @@ SPEC = {
         "C09_group_labels_untouched", "C09_group_labels_untouched_prefix_refuted", "C09_group_labels_untouched_prefix_partial", "C09_duration_ops", "C09_nonvacuous",
         "C09_command_condition", "C09_path_name_conditions", "C09_kind_condition", "C09_state_condition", "C09_annotation_condition",
         "C09_label_condition", "C09_duration_conditions", "C09_duration_parse_error_quirk", "C09_conditions_nonvacuous"]},
-    "harness_args": lambda tier: ["C09", "--n", 40 if tier == "quick" else 1500],
+    "harness_args": lambda tier: ["C09", "--n", 40 if tier == "quick" else 1000],
     "search_args": lambda tier: ["C09", "--n", 200],
     "level": "proof",
     "trusted_base": [
@@ -23,7 +23,8 @@ SPEC = {
         "evaluator of docs/configuration.md; every second scenario is FOCUSED: each rule block tests one condition kind (rotating over the nine, in match and ignore role, "
         "sometimes with a second condition or an explicit state) on files where every rule sees >= 2 group labels, >= 2 own labels, >= 2 annotations; "
         "key/value patterns include ones matching several names and proper substrings; duration conditions use every operator against the durations the rules use; "
-        "rule for/keep_firing_for values that are not durations occur; measured per-condition verdict histogram in the evidence",
+        "rule for/keep_firing_for values that are not durations occur; a later block may carry the IDENTICAL marker check of an earlier block "
+        "(expected: reported iff any block of the group applies); measured per-condition verdict histogram in the evidence",
         "PRule cases: the match/ignore lists stored by parseRule/newParsedRule (real code) = (ignore as decoded, default_rule_match of match) for ci / lint / no command",
     ],
     "assumptions": [
